@@ -35,7 +35,7 @@ KV_TEXT = {
 KV_NOCOMPILE = {"err", "sval", "serde", "ref=over", "ref=07", "ref=neg", "bytestr"}      # b"x": [u8; 1] is not a log value
 
 MSG_TEXT = {
-    "plain": "s{u} hello", "leadspace": "  s{u} padded", "slashes": "// s{u} not a comment",
+    "plain": "s{u} hello", "leadspace": "  s{u} padded", "endbackslash": "s{u} drive C:\\\\", "onlybackslash": "\\\\", "slashes": "// s{u} not a comment",
     "blockcm": "/* s{u} */ tail", "placeholders": "s{u} a={{}} b={{:?}}", "escquote": 's{u} say \\"hi\\" there',
     "unicode": "s{u} h\u00e9llo \u4e16\u754c \U0001F980", "unicodefirst": "\u00e9 s{u}", "reflater": "s{u} see [ref: 5] later",
     "empty": "", "validref": "[ref: 5] s{u}", "validref0": "[ref: 0] s{u}", "validrefmax": "[ref: 4294967295] s{u}",
@@ -121,7 +121,9 @@ def render_case(case, uid, macroset=None):
         allmods.update([mv] if isinstance(mv, str) else mv)
     others = sorted(allmods - set(mods)) or ["other"]
     name = {"bare": macro, "qualified": mod + "::" + macro, "crossmod": others[uid % len(others)] + "::" + macro, "unconfigured": "debug", "prefix": macro + "_extra",
-            "suffix": "my_" + macro, "othermod": "other::" + macro, "modplus1": "x" + mod + "::" + macro, "modminus1": mod[1:] + "::" + macro, "submod": mod + "::sub::" + macro,
+            "suffix": "my_" + macro, "othermod": "other::" + macro, "modplus1": "x" + mod + "::" + macro, "modminus1": mod[1:] + "::" + macro,
+            # identifier characters outside ASCII directly in front of a configured name / in the module path
+            "unicodeprefix": "\u65e5\u5fd7" + macro, "unicodemod": "\u0436\u0443\u0440\u043d\u0430\u043b::" + macro, "submod": mod + "::sub::" + macro,
             "shortmod": "l::" + macro, "noliteral": macro, "noargs": macro, "linecomment": macro,
             "blockcomment": macro, "doccomment": macro, "instring": macro, "instringopen": macro, "rawstring": macro, "starcomment": macro,
             "nestedcomment": macro, "nestedcomment3": macro, "bannercomment": macro, "upper": macro.upper(),
